@@ -180,6 +180,22 @@ let () =
            | "checkonly" -> if check_only_ok (names_of_string (a 1)) then "true" else "false"
            | "place" -> string_of_name (place_name (name_of_string (a 1)) (a 2 = "1"))
            | "unplace" -> (match place_to_variable (name_of_string (a 1)) with None -> "none" | Some (v, b) -> string_of_name v ^ " " ^ (if b then "1" else "0"))
+           | "filter" ->
+               (* filter SEEDSONLY MOTIFS CANDS : Filter.compute_attractors_filter; sets printed as sorted state lists *)
+               let (seeds, sets) = compute_attractors_filter !net (a 1 = "1") (spaces_of_string (a 2)) (states_of_string (a 3)) in
+               "seeds=" ^ str_states seeds ^ " sets=" ^
+               (match sets with None -> "none"
+                              | Some l -> if l = [] then "-" else String.concat "/" (List.map (fun st -> str_states (List.sort compare (List.map string_of_state st) |> List.map state_of_string)) l))
+           | "skiprule" ->
+               (* seeds of every node in id order under the ideal engine (SkipRule.query_order): per-node seed counts, lost attractors *)
+               let attrs = get_attrs () in
+               let n = int_of_nat (size !cur) in
+               let ids = List.init n nat_of_int in
+               let c = query_order attrs !cur (List.init n (fun _ -> None)) ids in
+               Printf.sprintf "counts=%s lost=%d dup=%d"
+                 (String.concat "," (List.map (function None -> "-" | Some l -> string_of_int (List.length l)) c))
+                 (List.length (lost attrs c))
+                 (List.length (List.filter (fun a -> int_of_nat (times_represented c a) > 1) attrs))
            | "init" -> cur := init !net; dump !cur
            | "dump" -> dump !cur
            | "depth" -> string_of_int (int_of_nat (depth !cur))
@@ -188,19 +204,21 @@ let () =
            | "aseeds" ->
                (* aseeds SIZE MINTAPE NFVSTAPE *)
                let nt = if a 3 = "-" then [] else List.map (fun l -> if l = "~" then [] else nats_of_string l) (String.split_on_char '/' (a 3)) in
-               (* contract of the NFVS tape (ASeedsFacts.nfvs_log_ok), decided by the extracted no_neg_walk_b *)
+               (* contract of the NFVS tape (ASeedsFacts.nfvs_log_ok), decided by the extracted LogChecks.nfvs_entry_ok_b *)
                let lg = expand_aseeds_log !fuel !net !cfg !cur (opt_nat (a 1)) (spaces_of_string (a 2)) nt in
-               let nv = List.length !net in
-               let rec nodup = function [] -> true | x :: r -> not (List.mem x r) && nodup r in
-               let bad = List.filter (fun (sp, nfvs) ->
-                   not (nodup nfvs && List.for_all (fun v -> int_of_nat v < nv) nfvs && no_neg_walk_b !net sp nfvs)) lg in
+               let bad = List.filter (fun e -> not (nfvs_entry_ok_b !net e)) lg in
                let (d1, r) = expand_aseeds !fuel !net !cfg !cur (opt_nat (a 1)) (spaces_of_string (a 2)) nt in
                cur := d1; Printf.sprintf "result=%s;tape=%d/%d %s" (str_result r) (List.length lg) (List.length bad) (dump d1)
            | "block" ->
                (* block MAA OPTSRC SIZE TAPE(bits) *)
                let tape = if a 4 = "-" then [] else List.init (String.length (a 4)) (fun i -> (a 4).[i] = '1') in
+               (* contract of the is_clean tape (BlockComplete.clean_log_ok), decided by LogChecks.clean_entry_ok_b;
+                  only positive answers carry an obligation *)
+               let (lg, _) = expand_block_log !fuel !net !cfg !cur (a 1 = "1") (a 2 = "1") (opt_nat (a 3)) tape in
+               let pos = List.filter (fun (_, b) -> b) lg in
+               let bad = List.filter (fun e -> not (clean_entry_ok_b !net e)) pos in
                let (d1, r) = expand_block !fuel !net !cfg !cur (a 1 = "1") (a 2 = "1") (opt_nat (a 3)) tape in
-               cur := d1; "result=" ^ str_result r ^ " " ^ dump d1
+               cur := d1; Printf.sprintf "result=%s;tape=%d/%d %s" (str_result r) (List.length pos) (List.length bad) (dump d1)
            | "op" ->
                let o = match a 1 with
                  | "expand" -> OExpandNode (nat_of_int (int_of_string (a 2)))
